@@ -1,6 +1,8 @@
 import IodineModel.Hex
 import IodineModel.Server.Options
 import IodineModel.Client.Options
+import IodineModel.Drv.Server
+import IodineModel.Drv.Client
 /-
 Driver ops for the two `main()` models (the C side: op `main` of harness/h_srv.c and of harness/h_cli.c):
 
@@ -120,11 +122,18 @@ def showSrvFinal (f : Server.Options.Final) : String :=
   s!"pw={toHex f.password} td={toHex f.topdomain} ip={hex8 f.myIp} nm={f.netmask} mtu={f.mtu} cip={b01 f.checkIp} ns={hex8 f.nsIp}" ++
   s!" bport={f.bindPort} dbg={f.debug} users={f.createdUsers} pool={if f.pool.isEmpty then "-" else ",".intercalate (f.pool.map hex8)}"
 
+/-- `users[]` as `tunnel()` finds it: every slot (the harness prints the NULL encoder of a never-used slot as `-`) -/
+def showSlots (f : Server.Options.Final) : String :=
+  let one (p : Server.Session × Nat) : String :=
+    s!"a={b01 p.1.active} dis={b01 p.1.disabled} id={p.2} ip={hex8 p.1.tunIp} " ++ (Drv.Server.showSlot p.2 p.1).replace " enc=b32 " " enc=- "
+  s!" fw={if f.fw = FwQuery.init then "clean" else "dirty"} uc={f.users.length}" ++
+  (if f.users.isEmpty then "" else " | sl " ++ " ; ".intercalate (f.users.zipIdx.map one))
+
 def showCliFinal (f : Client.Options.Final) : String :=
   let c := f.cli
   s!"pw={toHex f.password} td={toHex c.topdomain} ml={c.hostnameMaxlen} qt={c.doQtype} dn={c.downenc} sel={c.selecttimeout}" ++
   s!" lazy={b01 c.lazymode} nsl={f.nsLen} nsf={f.nsFamily} nsip={hex8 f.nsIp} nsport=53 conn={if c.conn = .dnsNull then 1 else 0}" ++
-  s!" run={b01 c.running} rs={c.randSeed} cid={c.chunkid}"
+  s!" run={b01 c.running} rs={c.randSeed} cid={c.chunkid} | " ++ Drv.Client.digest c
 
 def handle (toks : List String) : Option String :=
   match toks with
@@ -135,7 +144,7 @@ def handle (toks : List String) : Option String :=
       if t.argv.isEmpty then some "bad-op" else
       let r := Server.Options.serverMain (srvEnv t) t.argv
       some (showOutcome r.outcome ++ " | " ++ showEvents r.events ++
-        (match r.final with | some f => " | " ++ showSrvFinal f | none => ""))
+        (match r.final with | some f => " | " ++ showSrvFinal f ++ showSlots f | none => ""))
   | "cmain" :: rest =>
     match parse rest {} with
     | none => some "bad-op"
